@@ -16,6 +16,7 @@ tie:    harness/c04_shapes.cc runs seeded histories over pools of BD_Shape<mpq_c
         Boolean iff the union is in the domain; every other transformer contains the exact result.
 """
 from . import wr_common as w
+from . import c04_reduce
 LEVEL = "proof"
 
 
@@ -27,6 +28,7 @@ def run(ctx):
         broken += ctx.leanchecker(["PPLV.Props.C04"])
     w.run_shapes(ctx, "c04", w.C04_TYPES, n_hist=700 if quick else 20000, length=12 if quick else 25,
                  maxdim=3 if quick else 4)
+    broken += c04_reduce.run(ctx)          # stage 2: reduction / exact-join algorithms (proof + exact correspondence + judges)
     for b in broken:
         ctx.violation("proof obligation broken: " + b, {"obligation": b}, found_input=False)
     ctx.assumptions += [
@@ -41,5 +43,7 @@ def run(ctx):
 def replay(ctx, path):
     """bin/check C04 --replay <file>: re-execute the recorded history against the current tree and judge it again"""
     ctx.ensure_ppl()
+    if c04_reduce.is_replay(path):
+        return c04_reduce.replay(ctx, path)
     w.run_replay(ctx, "c04")
     return 1 if ctx.violations else 0
